@@ -172,6 +172,10 @@ Section LUModel.
                       Ok (fun i j' => if Nat.eqb j' j then col i else y i j'))
           (seq 0 m) (fun _ _ => e_of_Z L 0).
 
+  (* LU.solve with a 2-D right-hand side (after the repair of finding C15-5): every column of the copy of b is
+     solved as a list, exactly as invab does *)
+  Definition solve2 (n m : nat) (a b : mat) : res mat := invab n m a b.
+
   Definition identity : mat := fun i j => e_of_Z L (if Nat.eqb i j then 1 else 0)%Z.
 
   Definition inv (n : nat) (a : mat) : res mat := invab n n a identity.
@@ -310,6 +314,19 @@ Section LUModel.
                    Ok (vupd s'' py (fun i j' => if Nat.eqb j' j then s'' pc i 0 else s'' py i j')))
                 (seq 0 m) (vupd s2 py (fun _ _ => e_of_Z L 0)) ;;
     Ok (s5, py).
+
+  (* a_lu,i,p = ludcmp(a.copy()); x = b.copy(); per column j: col = _lubksb(a_lu, i, [x[k,j] for k]); x[k,j] = col[k] *)
+  Definition solve2_at (n m : nat) (s : store) (pa pb fresh : nat) : res (store * nat) :=
+    let s1 := vupd s fresh (copy_arr (s pa)) in
+    '(s2, idx, _) <- ludcmp_at n s1 fresh ;;
+    let px := S fresh in
+    let pc := S (S fresh) in
+    s5 <- foldM (fun s j =>
+                   let s' := vupd s pc (fun i _ => s px i j) in
+                   s'' <- lubksb_at n s' fresh idx pc ;;
+                   Ok (vupd s'' px (fun i j' => if Nat.eqb j' j then s'' pc i 0 else s'' px i j')))
+                (seq 0 m) (vupd s2 px (copy_arr (s2 pb))) ;;
+    Ok (s5, px).
 
   (* b = np.identity(a.shape[0], a.dtype); return LU.invab(a,b) *)
   Definition inv_at (n : nat) (s : store) (pa fresh : nat) : res (store * nat) :=
